@@ -147,6 +147,9 @@ def scripted_class(nE, check, mixins=(), exo=('X',), style=None):
             self.__dict__['v0'] = self._cv(t)
             acts = self.before_script
             p = self._pos(t)
+            if self.__dict__.get('hook_style') == 'swallow':
+                # an override that does not forward the optional `iteration` keyword (it is documented as optional)
+                kw = {k: v for k, v in kw.items() if k != 'iteration'}
             super().solve_t_before(t, *a, **kw)
             if p < len(acts):
                 self._play(t, acts[p])
@@ -294,6 +297,7 @@ def build_instance(case, mixins=(), span=None, exo=('X',)):
     d['v0'] = None
     d['seen_at_before'] = None
     d['write_mode'] = case.get('write', 'inplace')
+    d['hook_style'] = case.get('hook_style', 'forward')
     if edit:
         m.check = [names[i] for i in case['check']]
     if case.get('strict'):
@@ -307,10 +311,11 @@ def vary_implementation_side(case, rng):
     case['write'] = rng.choice(['inplace', 'inplace', 'rebind'])
     case['prov'] = rng.choice(PROVENANCES)
     case['names'] = rng.choice(NAME_STYLES)
-    case['argform'] = rng.choice(['plain', 'plain', 'numpy'])
+    case['argform'] = rng.choice(['plain', 'plain', 'numpy', 'omit'])
     case['mix'] = rng.choice(MIXES)
     case['check_edit'] = rng.random() < 0.3
     case['strict'] = rng.random() < 0.3
+    case['hook_style'] = rng.choice(['forward', 'forward', 'swallow'])
     for acts in case['script'] + [case['before'], case['after']]:
         for a in acts:
             if a.get('k') == 'raise':
@@ -353,7 +358,14 @@ def opts_kwargs(o, tol_bits, form='plain'):
     if form == 'numpy':
         kw.update(min_iter=np.int64(kw['min_iter']), max_iter=np.int64(kw['max_iter']), tol=np.float64(kw['tol']),
                   offset=np.int64(kw['offset']), catch_first_error=np.bool_(kw['catch_first_error']))
+    if form == 'omit':
+        # leave out every keyword whose value is the documented default: the call must mean the same
+        kw = {k: v for k, v in kw.items() if not (k in DEFAULTS and type(v) is type(DEFAULTS[k]) and v == DEFAULTS[k])}
     return kw
+
+
+# the documented defaults of solve_t() / solve() / solve_period()
+DEFAULTS = dict(min_iter=0, max_iter=100, tol=1e-10, offset=0, failures='raise', errors='raise', catch_first_error=True)
 
 
 def t_arg(case):
@@ -474,6 +486,8 @@ def outcome_vals(kind, prev, nE):
         return [float('inf') for p in prev]
     if kind == 'allninf':
         return [float('-inf') for p in prev]
+    if kind == 'tiny2':  # a move of 2**-30 (9.3e-10): above the default tolerance 1e-10, below 1e-8
+        return [p + 2.0 ** -30 if np.isfinite(p) else 2.0 ** -7 for p in prev]
     if kind == 'tiny':   # a move far below float32's machine epsilon relative to 1, yet above a tolerance of 1e-10
         return [p + 2.0 ** -26 if np.isfinite(p) else 2.0 ** -7 for p in prev]
     if kind == 'zero':   # every value exactly 0.0 (what 'replace' turns a non-finite previous value into)
